@@ -72,6 +72,12 @@ def run_map_case(case):
     three = mode == "xyz"
     Rs, ps, ts = tagged(n)
     R2, p2, _ = tagged(n, k=1)
+    if case.get("stamps") == "reversed":
+        # time-reversed stamps (or a backwards jump): pose order is what the
+        # map plots follow
+        ts = ts[::-1]
+    elif case.get("stamps") == "jump":
+        ts = ts[1:] + ts[:1]
     timed = case["timed"]
     if case["storage"] == "int":
         # positions handed over as an integer array (waypoint grid): the
@@ -426,6 +432,12 @@ def all_cases(thorough):
                                   "markers": True, "axis_scale": 0.1,
                                   "edges": True, "unit": "m",
                                   "storage": "int"}))
+        for stamps in ("reversed", "jump"):
+            for n in (2, 3, 4):
+                cases.append(("map", {"mode": mode, "n": n, "timed": True,
+                                      "markers": True, "axis_scale": 0.1,
+                                      "edges": True, "unit": "m",
+                                      "storage": "quat", "stamps": stamps}))
         for count in (1, 2, 3):
             for container in ("dict", "list", "single", "tuple", "generator",
                               "iterator", "dict_values"):
